@@ -499,12 +499,29 @@ class Bound(Word):
             yield [ND, setup, ops]
 
 
+class WordIdeal(WordRandom):
+    """NOT part of the check: the same cases judged against the `Ideal` model (AddData / RemoveData as
+    the property demands them).  Used by hand against a scratch tree that carries
+    props.d/C13/proposed/add-remove-data-undo.diff, to validate the model that
+    `ideal_zipper_refinement` is about (see props.d/C13/design.md)."""
+    name = "wordideal"
+    line_name = "wordideal"
+
+
+class WordOld(WordRandom):
+    """NOT part of the check: the same cases judged against the `Old` model (code before fix F4), used
+    by hand against a tree without the fix to validate the model the `old_*` witnesses are about."""
+    name = "wordold"
+    line_name = "wordold"
+
+
 PROP = Property(
     id="C13",
     title="Undo restores the previous session state and redo restores the undone one",
     theorems=["C13.undo_do", "C13.redo_undo_do", "C13.redo_undo", "C13.undo_redo", "C13.do_clears_redo",
               "C13.stack_le_max", "C13.empty_stack_errors", "C13.setup_wf",
               "C13.zipper_refinement_partial", "C13.masks_of_observe",
+              "C13.ideal_zipper_refinement", "C13.ideal_vs_impl",
               "C13.spec_undo_after_do", "C13.spec_redo_after_undo", "C13.spec_redo_after_do", "C13.spec_bound",
               "C13.old_undo_apply_new_group", "C13.old_redo_creates_nothing", "C13.old_undo_empty_collection",
               "C13.remove_undo_reorders", "C13.add_present_undo_removes", "C13.remove_absent_undo_appends"],
